@@ -167,16 +167,28 @@ Definition C11_useful (ts : list task) (o : obs) : Prop :=
 Definition C11_holds (ts : list task) (nt nr : nat) (o : obs) : Prop :=
   C11_safe ts nt nr o /\ C11_useful ts o.
 
+(* clauses 1-4, which only need the event sequence *)
+Definition events_code (ts : list task) (evs : list event) : Z :=
+  if negb (every_splitb (fun _ ev => listedb ts ev) evs) then 1
+  else if negb (every_splitb in_orderb evs) then 2
+  else if negb (every_splitb (freshb ts) evs) then 3
+  else if negb (every_splitb (neededb ts) evs) then 4
+  else 0.
+
 Definition safe_code (ts : list task) (nt nr : nat) (o : obs) : Z :=
-  if negb (every_splitb (fun _ ev => listedb ts ev) (o_events o)) then 1
-  else if negb (every_splitb in_orderb (o_events o)) then 2
-  else if negb (every_splitb (freshb ts) (o_events o)) then 3
-  else if negb (every_splitb (neededb ts) (o_events o)) then 4
+  if negb (events_code ts (o_events o) =? 0) then events_code ts (o_events o)
   else if negb (accountb ts nt nr o) then 5
   else 0.
 
-Definition useful_code (ts : list task) (o : obs) : Z :=
-  if every_splitb (usefulb ts) (o_events o) then 0 else 6.
+Definition C11_events (ts : list task) (evs : list event) : Prop :=
+  every_split (fun _ ev => listed ts ev) evs
+  /\ every_split in_order evs
+  /\ every_split (fresh ts) evs
+  /\ every_split (needed ts) evs.
+
+Definition useful_events_code (ts : list task) (evs : list event) : Z :=
+  if every_splitb (usefulb ts) evs then 0 else 6.
+Definition useful_code (ts : list task) (o : obs) : Z := useful_events_code ts (o_events o).
 
 Definition prop_code (ts : list task) (nt nr : nat) (o : obs) : Z :=
   if safe_code ts nt nr o =? 0 then useful_code ts o else safe_code ts nt nr o.
